@@ -1569,6 +1569,9 @@ def drift(tier='quick'):
                 pool.append(df17(5, a, me_velocity(st_, 1, rng.getrandbits(10), 0, rng.getrandbits(10), 1, rng.getrandbits(9), dif=rng.getrandbits(7), sdif=rng.getrandbits(1))))
             pool.append(df17(5, a, me_surface(rng.randint(5, 8), rng.getrandbits(7), rng.getrandbits(1), rng.getrandbits(7), rng.getrandbits(1), rng.getrandbits(17), rng.getrandbits(17))))
             pool.append(df17(5, a, me_velocity(1, 0, 100, 0, 100, 0, 5, dif=rng.randint(1, 127), sdif=1)))
+            pool.append(short(4, rng.getrandbits(13) | 0x40, a))
+            pool.append(long_(20, rng.getrandbits(13) | 0x40, mb40(100, 200, 300, src=rng.getrandbits(2), st54=rng.getrandbits(1)), a))
+            pool.append(long_(21, rng.getrandbits(13), mb40(100, 200, 300, src=rng.getrandbits(2), st54=1), a))
         g = [reset(OPTSETS[k % 4])]
         for _ in range(300):
             g.append(run1(rng.choice(pool)))
